@@ -517,8 +517,9 @@ func concRun(prop, tier string, c Case, w *Worker) (res Result) {
 	if p.Witness != "" {
 		return concWitness(p, c, w)
 	}
-	prev := runtime.GOMAXPROCS(p.Procs)
-	defer runtime.GOMAXPROCS(prev)
+	// GOMAXPROCS is fixed per worker process by the orchestrator (2, 4 or 16 by shard): switching it in-process crashed the
+	// race-detector runtime (SIGSEGV in runtime.startTheWorld) about once in a thousand histories - a harness artefact
+	p.Procs = runtime.GOMAXPROCS(0)
 	cfg := p.Cfg
 	res.setAdd("configs", cfg.String())
 	res.setAdd("gomaxprocs", fmt.Sprint(p.Procs))
